@@ -4,6 +4,7 @@
    place from a larger value); the model ignores it — results must not depend on capacity. *)
 open Io
 let p = Extracted.addsub
+let sp = Extracted.signs
 let v = Base.coq_val
 
 (* `z:-1|0|1` *)
@@ -40,10 +41,10 @@ let init () =
   i1 "sg.neg_ref" (fun x -> ri (AddSub.ineg x)) (fun a -> ri (ienc (SpecSign.spec_neg a)));
   i1 "sg.neg_inverse" (fun x -> out ri (AddSub.iadd p x (AddSub.ineg x))) (fun _ -> ri (ienc Zar.zero));
   (* Signed *)
-  i1 "sg.abs" (fun x -> ri (Sign.iabs x)) (fun a -> ri (ienc (SpecSign.spec_abs a)));
-  i1 "sg.signum" (fun x -> ri (Sign.isignum x)) (fun a -> ri (ienc (SpecSign.spec_signum a)));
-  i1 "sg.is_positive" (fun x -> rb (Sign.is_positive x)) (fun a -> rb (SpecSign.spec_is_positive a));
-  i1 "sg.is_negative" (fun x -> rb (Sign.is_negative x)) (fun a -> rb (SpecSign.spec_is_negative a));
+  i1 "sg.abs" (fun x -> ri (Sign.iabs sp x)) (fun a -> ri (ienc (SpecSign.spec_abs a)));
+  i1 "sg.signum" (fun x -> ri (Sign.isignum sp x)) (fun a -> ri (ienc (SpecSign.spec_signum a)));
+  i1 "sg.is_positive" (fun x -> rb (Sign.is_positive sp x)) (fun a -> rb (SpecSign.spec_is_positive a));
+  i1 "sg.is_negative" (fun x -> rb (Sign.is_negative sp x)) (fun a -> rb (SpecSign.spec_is_negative a));
   i1 "sg.sign" (fun x -> ok (res_sign (Sign.isign x))) (fun a -> ok (res_sign (SpecSign.spec_sign a)));
   i1 "sg.magnitude" (fun x -> ru (Sign.imagnitude x)) (fun a -> ru (enc (SpecSign.spec_magnitude a)));
   i1 "sg.into_parts"
@@ -53,12 +54,12 @@ let init () =
     (fun x -> let (s, m) = Sign.into_parts x in ri (Base.from_biguint s m))
     (fun a -> ri (ienc a));
   reg_ms "sg.abs_sub"
-    (function [_; x; y] -> out ri (Sign.abs_sub p (arg_ic x) (arg_ic y)) | _ -> failwith "arity")
+    (function [_; x; y] -> out ri (Sign.abs_sub sp p (arg_ic x) (arg_ic y)) | _ -> failwith "arity")
     (function [_; x; y] -> out (fun r -> ri (ienc r))
                              (SpecSign.spec_abs_sub (Base.ival (arg_ic x)) (Base.ival (arg_ic y)))
             | _ -> failwith "arity");
   reg_ms "sg.cmp"
-    (function [_; x; y] -> out (fun c -> ok (res_cmp c)) (Sign.icmp (arg_ic x) (arg_ic y)) | _ -> failwith "arity")
+    (function [_; x; y] -> out (fun c -> ok (res_cmp c)) (Sign.icmp sp (arg_ic x) (arg_ic y)) | _ -> failwith "arity")
     (function [_; x; y] -> out (fun c -> ok (res_cmp c))
                              (SpecSign.spec_icmp (Base.ival (arg_ic x)) (Base.ival (arg_ic y)))
             | _ -> failwith "arity");
@@ -80,14 +81,14 @@ let init () =
     (function [w] -> ru (enc (SpecSign.val32 (arg_r w))) | _ -> failwith "arity");
   (* conversions between the two types *)
   let sopt a = opt (fun r -> ru (enc r)) (SpecSign.spec_to_biguint a) in
-  i1 "sg.to_biguint" (fun x -> opt ru (Sign.to_biguint x)) sopt;
-  i1 "sg.to_biguint_trait" (fun x -> opt ru (Sign.to_biguint x)) sopt;
-  i1 "sg.try_from" (fun x -> opt ru (Sign.try_into_biguint x)) sopt;
-  i1 "sg.try_from_ref" (fun x -> opt ru (Sign.to_biguint x)) sopt;
+  i1 "sg.to_biguint" (fun x -> opt ru (Sign.to_biguint sp x)) sopt;
+  i1 "sg.to_biguint_trait" (fun x -> opt ru (Sign.to_biguint_trait sp x)) sopt;
+  i1 "sg.try_from" (fun x -> opt ru (Sign.try_into_biguint sp x)) sopt;
+  i1 "sg.try_from_ref" (fun x -> opt ru (Sign.to_biguint sp x)) sopt;
   i1 "sg.i_to_bigint" (fun x -> opt ri (Sign.i_to_bigint x)) (fun a -> ri (ienc a));
-  u1 "sg.u_to_bigint" (fun m -> opt ri (Sign.u_to_bigint m)) (fun a -> ri (ienc a));
+  u1 "sg.u_to_bigint" (fun m -> opt ri (Sign.u_to_bigint sp m)) (fun a -> ri (ienc a));
   u1 "sg.u_to_biguint" (fun m -> opt ru (Sign.u_to_biguint m)) (fun a -> ru (enc a));
-  u1 "sg.from_u" (fun m -> ri (Sign.ifrom_u m)) (fun a -> ri (ienc a));
+  u1 "sg.from_u" (fun m -> ri (Sign.ifrom_u sp m)) (fun a -> ri (ienc a));
   (* identities *)
   Stdlib.List.iter (fun n -> c0 n (fun () -> ru Sign.uzero) (fun () -> ru (enc Zar.zero)))
     ["sg.u_zero"; "sg.u_const_zero"; "sg.u_default"; "sg.u_zero_trait_const"];
@@ -97,7 +98,7 @@ let init () =
   c0 "sg.i_one" (fun () -> ri Sign.ione) (fun () -> ri (ienc Zar.one));
   u1 "sg.u_is_zero" (fun m -> rb (Sign.uis_zero m)) (fun a -> rb (SpecSign.spec_is_zero a));
   u1 "sg.u_is_one" (fun m -> rb (Sign.uis_one m)) (fun a -> rb (SpecSign.spec_is_one a));
-  i1 "sg.i_is_zero" (fun x -> rb (Sign.iis_zero x)) (fun a -> rb (SpecSign.spec_is_zero a));
+  i1 "sg.i_is_zero" (fun x -> rb (Sign.iis_zero sp x)) (fun a -> rb (SpecSign.spec_is_zero a));
   i1 "sg.i_is_one" (fun x -> rb (Sign.iis_one x)) (fun a -> rb (SpecSign.spec_is_one a));
   u1 "sg.u_set_zero" (fun m -> ru (Sign.uset_zero m)) (fun _ -> ru (enc Zar.zero));
   u1 "sg.u_set_one" (fun m -> ru (Sign.uset_one m)) (fun _ -> ru (enc Zar.one));
